@@ -120,13 +120,14 @@ Definition m_listing (d : dstate) : list oent :=
   flat_map (fun kc : uri * option content => match snd kc with Some c => [(fst kc, c)] | None => [] end)
            (listing_page d None 0).
 
+(** a lookup scoped to [ds]: the partials and the deleted flag are determined by the model; [found] is only
+    constrained when the model has no version at all (an entity known elsewhere is "found" with an empty body) *)
 Definition get_agrees (st : store) (ds : Z) (g : gobs) : bool :=
   let at' := match g_at g with Some t => t | None => s_clock st end in
   let '(parts, hasdel) := entity_at st (g_id g) at' [ds] in
-  if g_found g then
-    list_eqb partial_eqb parts (g_parts g)
-    && (match parts with [] => Bool.eqb hasdel (g_del g) | _ => true end)
-  else match parts with [] => negb hasdel | _ => false end.
+  list_eqb partial_eqb parts (g_parts g)
+  && Bool.eqb (g_del g) (match parts with [] => hasdel | _ => false end)
+  && (g_found g || (match parts with [] => negb hasdel | _ => false end)).
 
 Definition reads_agree (st : store) (ds : Z) (r : robs) : bool :=
   let d := get_ds st ds in
@@ -187,8 +188,10 @@ Fixpoint agree_run (v : variant) (taint : bool) (st : store) (ops : list cop) : 
 Definition agree (v : variant) (c : tcase) : bool := agree_run v false store0 c.
 
 (** ** the executable spec, on the implementation's own observations *)
+(** same answer: same partials, same deleted flag ([g_found] only tells whether the URI is known at all, which a
+    compaction cannot change and the model does not track) *)
 Definition get_same (a b : gobs) : bool :=
-  Z.eqb (g_id a) (g_id b) && Bool.eqb (g_found a) (g_found b)
+  Z.eqb (g_id a) (g_id b)
   && list_eqb partial_eqb (g_parts a) (g_parts b) && Bool.eqb (g_del a) (g_del b).
 
 Definition view_consistent (r : robs) : bool :=
